@@ -161,4 +161,40 @@ inline Script from_bytes(const uint8_t *data, size_t size)
 	return s;
 }
 
+
+// Inverse of from_bytes (up to the fields the byte form cannot express): used to seed the fuzzing corpus from structured scripts.
+inline wire::Bytes to_bytes(const Script &s)
+{
+	wire::Bytes b;
+	auto u8 = [&](int v) { b.push_back((uint8_t)v); };
+	auto u64 = [&](uint64_t v) { for (int k = 7; k >= 0; k--) b.push_back((uint8_t)(v >> (8 * k))); };
+	u8(s.refresh); u8(s.expire); u8(s.retry); u8(s.ivmode & 3);
+	u8((s.session >> 8) & 0xff); u8(s.session & 0xff);
+	u8(s.serial_base % SERIAL_N);
+	u64(s.v0mask); u64(s.foreign);
+	u8(s.dirty & 1);
+	for (auto &t : s.steps) {
+		int adv = t.advance % 6;
+		u8((adv >= 3 ? 0xC0 : 0) | (t.kind % K_N)); // K_N == 8 divides 0xC0, so kind = a % K_N survives
+		u8((t.open_fails & 3) | ((t.open_delay % DELAY_N) << 2));
+		int sm = t.send_mode % S_N;
+		u8((sm == 0 ? 0 : (sm + 9)) | ((adv % 3) << 4) | (t.new_session ? 0xC0 : 0));
+		u64(t.toggle);
+		u8(t.mut % M_N); u8(t.pos);
+		u8((t.keep & 1) | ((t.err_flags & 3) << 1) | ((t.notify_prefix & 1) << 3) | ((t.chunk & 3) << 4) | ((t.err_flags & 4) ? 0x80 : 0));
+		u8(t.order); u8(t.err_code); u8(t.err_ver); u8(t.ver_byte);
+		for (int k = 0; k < 3; k++) u8(((t.iv[k] % IV_N) + IV_N) % IV_N);
+		u8((t.idle[0] % I_N) + I_N * (t.idle[1] % I_N) + I_N * I_N * (t.idle[2] % I_N));
+		u8(t.fault_off);
+		u8(t.mut2 >= 0 ? (0x80 | (t.mut2 % M_N)) : 0);
+		u8(t.pos2);
+		if (t.kind % K_N == K_RAW) {
+			size_t n = t.raw.size() % 600;
+			u8((int)(n >> 8)); u8((int)(n & 0xff));
+			b.insert(b.end(), t.raw.begin(), t.raw.begin() + n);
+		}
+	}
+	return b;
+}
+
 } // namespace cs
